@@ -426,6 +426,11 @@ func runC18(r *Run, replay *Case) {
 		}
 	}
 	r.Res.Exhaustive = true
+	if r.Thorough() {
+		c18GlobNames(r, 2000)
+	} else {
+		c18GlobNames(r, 150)
+	}
 	// wide directories: 8-24 names per directory, each absent / file / directory per layer, at the top level and inside `d` — listings long
 	// enough that how the merged listing is sorted and de-duplicated matters (which layer's entry stands for a shadowed name)
 	nw := 400
@@ -479,5 +484,69 @@ func runC18(r *Run, replay *Case) {
 			ls = append(ls, cfgs[r.Rng.Intn(len(cfgs))])
 		}
 		r.Add(c18Eval(ls, qs[r.Rng.Intn(len(qs))]))
+	}
+}
+
+// glob over directory names that are PREFIXES of one another and continue with bytes sorting before '/' (`pages` / `pages-old` / `pages.d`, `v1` / `v1.1`):
+// the result is the union of the layers' matches SORTED AS STRINGS (not directory by directory), without duplicates
+func c18GlobNames(r *Run, n int) {
+	dirs := []string{"pages", "pages-old", "pages.d", "pages old", "blog", "blog.d", "v1", "v1.1", "v1+", "z"}
+	files := []string{"index.vuego", "about.vuego", "x", "_p.vuego"}
+	pats := []string{"*/*", "*/*.vuego", "p*/index.vuego", "*/index.vuego", "*", "pages*/*", "v1*/x", "*/[ai]*", "[bp]*/*.vuego", "*.d/*"}
+	for i := 0; i < n; i++ {
+		k := 1 + r.Rng.Intn(3)
+		var layers []fs.FS
+		var desc []any
+		for j := 0; j < k; j++ {
+			if r.Rng.Intn(8) == 0 {
+				layers = append(layers, nil)
+				desc = append(desc, nil)
+				continue
+			}
+			m := fstest.MapFS{}
+			var names []string
+			for _, d := range dirs {
+				if r.Rng.Intn(2) == 0 {
+					continue
+				}
+				for _, f := range files {
+					if r.Rng.Intn(2) == 0 {
+						m[d+"/"+f] = &fstest.MapFile{Data: []byte("L")}
+						names = append(names, d+"/"+f)
+					}
+				}
+			}
+			if r.Rng.Intn(3) == 0 {
+				m["top.vuego"] = &fstest.MapFile{Data: []byte("T")}
+				names = append(names, "top.vuego")
+			}
+			layers = append(layers, m)
+			desc = append(desc, names)
+		}
+		ov := vuego.NewOverlayFS(layers[0], layers[1:]...)
+		for _, pat := range pats {
+			got, err := ov.Glob(pat)
+			set := map[string]bool{}
+			for _, l := range layers {
+				if l == nil {
+					continue
+				}
+				ms, _ := fs.Glob(l, pat)
+				for _, m := range ms {
+					set[m] = true
+				}
+			}
+			want := make([]string, 0, len(set))
+			for m := range set {
+				want = append(want, m)
+			}
+			sort.Strings(want)
+			c := &Case{Name: fmt.Sprintf("glob names %s over %d layers", pat, k), Input: map[string]any{"stream": "globnames", "layers": desc, "pattern": pat}, Impl: map[string]any{"matches": got},
+				Oracle: &Verdict{OK: true}, Key: fmt.Sprintf("globnames|%s|%v", pat, want), Tags: []string{"stream:glob-names", "q:glob"}}
+			if err != nil || strings.Join(got, "\x00") != strings.Join(want, "\x00") {
+				c.Oracle = &Verdict{OK: false, Class: "glob-union:names", Detail: fmt.Sprintf("Glob(%q) over %v = %q (err %v), expected the sorted union %q", pat, desc, got, err, want)}
+			}
+			r.Add(c)
+		}
 	}
 }
